@@ -304,7 +304,12 @@ def gen_k_plan(run_seed: int, hashseed: int = 0, catalogue=None, p_backend_c: fl
         heap_knobs["guard"] = True
         if heap_knobs["realloc"] == "size_class":
             heap_knobs["realloc"] = "move"
+    separate = None
+    if not backend_c and rng.random() < 0.12:
+        separate = ["assemble", "compute", "evaluate"]
+        rng.shuffle(separate)
     return {
+        "separate_modules": separate,
         "engine": "K",
         "run_seed": run_seed,
         "hashseed": hashseed,
